@@ -519,8 +519,21 @@ def _rst_finish(c, outcome):
     created = [e for e in c.trace if e.kind == "create"]
     if not created:
         return
-    n = sum(1 for e in c.trace if e.kind == "sql" and sqlfront.dir_selections(e.sql))
+    scans = [e for e in c.trace if e.kind == "sql" and sqlfront.dir_selections(e.sql)]
+    n = len(scans)
     c.prove("three_scans_before_install", n == 3, kind="sql", detail=f"{n} prefix scans on the installing path")
+    if n == 3:
+        # C08 (a static tree exclusively owns every path beneath it): the last scan, whose rows the tree adopts, selects
+        # *every* detached file node under the tree -- no further condition (a leftover of any state, PLANNED or
+        # VOLATILE included, would otherwise come back with its old owner when that owner is recycled)
+        w = sqlfront.where_of(scans[2].sql)
+        cj = sqlfront.conjuncts(w)
+        plain = [x for x in cj if x[0] == "col"]
+        ok = len(cj) == 2 and len(plain) == 1 and plain[0][2] == "detached" and plain[0][1] in (None, "node")
+        c.prove("every_detached_file_below_is_adopted", tm.mk_bool(ok), kind="sql",
+                detail=f"WHERE of the adoption scan has {len(cj)} conjunct(s): {[x[0] for x in cj]}")
+        calls = [e for e in c.trace if e.kind == "call" and e.callee == "Workflow.declare_static_files" and e.index > scans[2].index]
+        c.prove("the_selected_paths_are_declared_static_by_the_tree", tm.mk_bool(len(calls) == 1), kind="trace")
 
 
 def _dir_with_sep(d: tm.T) -> tm.T:
